@@ -129,6 +129,17 @@ func init() {
 		Outside:     []string{"hierarchy-shape variation, enum/readonly, traits", "static:: / self:: access paths, __get/__set"},
 	})
 
+	reg(Check{
+		ID:  "C08",
+		Pkg: "verif/harness/c08",
+		Runs: []RunDef{
+			{Fn: "H_hierarchy", Params: map[string]int{"implbits": 16}, Fuel: 30_000_000, Tier: "quickonly", Reach: []string{"end"}},
+			{Fn: "H_hierarchy", Params: map[string]int{"implbits": 64}, Fuel: 30_000_000, Tier: "thorough", Reach: []string{"end"}},
+		},
+		Rule:        rule + "; the hierarchy is the quantified dimension: parent links of 3 classes (single inheritance), extends edge between 2 interfaces, implements matrix, override bits — every shape (quick: 768 with C0 implementing nothing, thorough: all 3072) is assembled as script text, registered by the real class/interface parsers and checked for all (object, type) pairs (instanceof, typed parameter, catch) and all dispatch forms (virtual call, parent::, self::, static::, like) against reachability computed by a 15-line closure. No scalar dimension: the engine degenerates to exhaustive bounded enumeration here",
+		Outside:     []string{"4-5 classes, 3-4 interfaces, multiple interface extends", "like with more than 3 probe interfaces"},
+	})
+
 	c17 := func(fn string, p map[string]int) RunDef {
 		return RunDef{Fn: fn, Params: p, Tier: "quick", Reach: []string{"end"}}
 	}
